@@ -1,0 +1,15 @@
+//go:build verif
+
+package cluster
+
+import "time"
+
+// VerifNow, when set by the verification harness, replaces the wall clock of the cluster package.
+var VerifNow func() time.Time
+
+func wallNow() time.Time {
+	if VerifNow != nil {
+		return VerifNow()
+	}
+	return time.Now()
+}
